@@ -34,22 +34,24 @@ def derive_seed(base, prop, tier, i):
     return int.from_bytes(h, 'big') >> 1
 
 
-def setup(needs):
-    """Install the seams (before mpservice is imported) and import mpservice from REPO_SRC."""
+def setup_early():
+    """Install the stdlib seams before anything else imports threading-dependent modules."""
     if REPO_SRC not in sys.path:
         sys.path.insert(0, REPO_SRC)
     if VERIF not in sys.path:
         sys.path.insert(0, VERIF)
-    from sim import core, threads
-    if 'proc' in needs:
-        from sim import osproc
-        osproc.preinstall()
+    from sim import core, threads, aio, osproc
+    osproc.preinstall()
     threads.install()
-    if 'aio' in needs:
-        from sim import aio
-        aio.install()
+    aio.install()
+    return core
+
+
+def setup(needs):
+    """Install the seams (before mpservice is imported) and import mpservice from REPO_SRC."""
+    core = setup_early()
+    from sim import threads, osproc
     if 'proc' in needs:
-        from sim import osproc
         osproc.install()
     import mpservice  # noqa
     assert os.path.abspath(mpservice.__file__).startswith(os.path.abspath(REPO_SRC)), mpservice.__file__
@@ -66,6 +68,7 @@ def setup(needs):
 
 
 def load_check(prop):
+    setup_early()
     name = None
     d = os.path.join(VERIF, 'checks')
     for fn in sorted(os.listdir(d)):
